@@ -173,13 +173,52 @@ func lemma_recursive_name(q, pre, n string, t TargetLabel) (bool, error) {
 	return p.Matches(t), nil
 }
 
-//@ func lemma_pattern_roundtrip(cur, s, t) (parsed, reparsed, m1, m2)
+//@ func lemma_pattern_roundtrip_relative(cur, s, t) (parsed, reparsed, m1, m2)
 //@   requires [wf_label] wfPkg(t.Package) && validName(t.Name)
 //@   requires [wf_current] wfPkg(cur) && !contains(cur, "...")
+//@   uses validName_facts
+//@   requires [case_relative] !hasPrefix(s, "//")
 //@   ensures  [reparses] parsed ==> reparsed
 //@   ensures  [same_matches] parsed && reparsed ==> (m1 <==> m2)
 
-func lemma_pattern_roundtrip(cur, s string, t TargetLabel) (parsed, reparsed, m1, m2 bool) {
+func lemma_pattern_roundtrip_relative(cur, s string, t TargetLabel) (parsed, reparsed, m1, m2 bool) {
+	p, err := ParseTargetPattern(cur, s)
+	if err != nil {
+		return false, false, false, false
+	}
+	p2, err2 := ParseTargetPattern(cur, p.String())
+	if err2 != nil {
+		return true, false, false, false
+	}
+	return true, true, p.Matches(t), p2.Matches(t)
+}
+
+//@ func lemma_pattern_roundtrip_exact(cur, s, t) (parsed, reparsed, m1, m2)
+//@   requires [wf_label] wfPkg(t.Package) && validName(t.Name)
+//@   requires [case_absolute_exact] hasPrefix(s, "//") && patEi(s) < 0
+//@   requires [single_trailing_slash] !hasSuffix(stripSlash(patPkgPart(s)), "/")
+//@   ensures  [reparses] parsed ==> reparsed
+//@   ensures  [same_matches] parsed && reparsed ==> (m1 <==> m2)
+
+func lemma_pattern_roundtrip_exact(cur, s string, t TargetLabel) (parsed, reparsed, m1, m2 bool) {
+	p, err := ParseTargetPattern(cur, s)
+	if err != nil {
+		return false, false, false, false
+	}
+	p2, err2 := ParseTargetPattern(cur, p.String())
+	if err2 != nil {
+		return true, false, false, false
+	}
+	return true, true, p.Matches(t), p2.Matches(t)
+}
+
+//@ func lemma_pattern_roundtrip_recursive(cur, s, t) (parsed, reparsed, m1, m2)
+//@   requires [wf_label] wfPkg(t.Package) && validName(t.Name)
+//@   requires [case_absolute_recursive] hasPrefix(s, "//") && patEi(s) >= 0
+//@   ensures  [reparses] parsed ==> reparsed
+//@   ensures  [same_matches] parsed && reparsed ==> (m1 <==> m2)
+
+func lemma_pattern_roundtrip_recursive(cur, s string, t TargetLabel) (parsed, reparsed, m1, m2 bool) {
 	p, err := ParseTargetPattern(cur, s)
 	if err != nil {
 		return false, false, false, false
